@@ -113,7 +113,7 @@ class TokenParser(Parser):
         values = {}
         # Members are separated by commas. A line break also separates two members where the comma was left out
         # (a name or value followed by a name on the next line), anywhere else it is just whitespace
-        body = re.sub(r"(?<=[\w)])\s*\n\s*(?=[A-Za-z_])", ",", d["values"])
+        body = re.sub(r"(?<=[\w)])\s*[\r\n]\s*(?=[A-Za-z_])", ",", d["values"])
         for v in body.split(","):
             key, _, val = v.partition("=")
             key = key.strip()
